@@ -834,7 +834,7 @@ class Baton(object):
 @register
 class C11(Spec):
     id = "C11"
-    tiers = {"quick": dict(runs=480, builds=("py",), wall=80), "thorough": dict(runs=20000, builds=("py", "cy"), wall=1500)}
+    tiers = {"quick": dict(runs=400, builds=("py",), wall=80), "thorough": dict(runs=20000, builds=("py", "cy"), wall=1500)}
     rule = (
         "K<=4 backtests are built from one seeded template (stateful and random algos included) and one set of input frames: seeded order of construction and of run(), and - for templates without random algos - "
         "a seeded interleaving of their steps (baton scheduler: real threads parked at every spy / commission call, one released at a time); every backtest's histories must be byte-identical to the same backtest run alone from a fresh template, "
@@ -844,7 +844,16 @@ class C11(Spec):
     assumptions = ["random / numpy.random are re-seeded to the same value before each run() (the property's 'with the random seeds fixed')", "interleaved runs exclude SelectRandomly / WeighRandomly (they share the process-global PRNG by design)"]
 
     def gen(self, r, tier, i):
-        plan = drive_engine.gen_all_algos_plan(r, tier, stateful=True, random_algos=(i % 2 == 0))
+        sweep = i % 5 == 2
+        plan = drive_engine.gen_all_algos_plan(r, tier, stateful=True, random_algos=(i % 2 == 0) or sweep)
+        if sweep and r.random() < 0.5:
+            # plans recomputed under other hash seeds: make sure the process-global PRNG consumers are among them
+            for _p, s in drive_engine.trees.strategies(plan["tree"]):
+                st = s.get("algos", [])
+                pos = [k for k, a in enumerate(st) if str(a.get("a", "")).startswith("Select")]
+                if pos:
+                    st.insert(pos[0] + 1, {"a": "SelectRandomly", "kw": {"n": r.randint(1, 3)}})
+                    break
         # spies inside the stacks are the yield points of the interleaving
         k = 0
         for _p, s in drive_engine.trees.strategies(plan["tree"]):
@@ -858,7 +867,7 @@ class C11(Spec):
         plan["order_run"] = r.sample(range(plan["K"]), plan["K"])
         plan["seed"] = r.randrange(1 << 30)
         plan["ileave"] = r.randrange(1 << 30)
-        plan["hashsweep"] = i % 5 == 2
+        plan["hashsweep"] = sweep
         if plan["cfg"].get("comm") is None and r.random() < 0.5:
             plan["cfg"]["comm"] = {"kind": "prop", "rate": 0.001}
         return plan
